@@ -266,6 +266,25 @@ func runC20(c *Ctx) {
 			}
 		})
 		c.check(okRec && okFwd, "C20.recorder", wh, "WriteHeader records the code and forwards the same code", nil, "the finished record reports what the client received")
+		// ... unconditionally: every call is recorded and forwarded exactly once
+		isRec := func(in ssa.Instruction) bool {
+			x, ok := in.(*ssa.Store)
+			if !ok {
+				return false
+			}
+			fa, ok := x.Addr.(*ssa.FieldAddr)
+			return ok && core.FieldName(fa) == "code" && x.Val == ssa.Value(wh.Params[1])
+		}
+		isFwd := func(in ssa.Instruction) bool {
+			x, ok := in.(*ssa.Call)
+			return ok && x.Call.IsInvoke() && x.Call.Method.Name() == "WriteHeader"
+		}
+		for _, ret := range core.Returns(wh) {
+			rmin, _, ok1 := core.CountOnPaths(wh, nil, ret, isRec)
+			fmin, fmax, ok2 := core.CountOnPaths(wh, nil, ret, isFwd)
+			c.check(ok1 && ok2 && rmin >= 1 && fmin == 1 && fmax == 1, "C20.recorder", wh, "every path records the code and forwards it exactly once", ret,
+				sprintf("records on a path: min %d; forwards on a path: min %d max %d — a handler may send 1xx informational headers before the final status, and the last code is the one the client receives", rmin, fmin, fmax))
+		}
 	}
 	if sis := c.P.Func("netutil/httputil", "CodeRecorderResponseWriter.SetImplicitSuccess"); sis != nil {
 		okS := false
@@ -299,6 +318,14 @@ func runC20(c *Ctx) {
 				}
 			}
 			c.check(okF, "C20.recorder", f, name+" forwards to the wrapped ResponseWriter", nil, "the client receives exactly what the handler wrote")
+			isFwd := func(in ssa.Instruction) bool {
+				x, ok := in.(*ssa.Call)
+				return ok && x.Call.IsInvoke() && x.Call.Method.Name() == name
+			}
+			for _, ret := range core.Returns(f) {
+				mn, mx, ok := core.CountOnPaths(f, nil, ret, isFwd)
+				c.check(ok && mn == 1 && mx == 1, "C20.recorder", f, name+" forwards exactly once on every path", ret, sprintf("min %d max %d", mn, mx))
+			}
 		}
 	}
 	// attributes
